@@ -15,7 +15,7 @@ import Dhcp.Driver.Misc
   Each family of operations lives in its own `Dhcp/Driver/<Family>.lean`
   exporting `step<Family> : String → List String → Option String`.
 -/
-open Dhcp.Driver
+open Dhcp.Driver Dhcp.Driver.Cli
 
 def families : List (String → List String → Option String) :=
   [stepV4, stepLabel, stepRaw, stepV4Acc, stepV4Build, stepV6, stepV6Build, stepClient, stepServer, stepMisc]
